@@ -144,6 +144,26 @@ pub fn cases_simple(rng: &mut Rng, count: usize, tier: &str, which: &str) -> Vec
         } else {
             world::gen_world_sub(rng, o, &mut tags)
         };
+        // C02: a client that ignores the error of an annotate_* call on an unknown term and goes on
+        let w = match (which, w) {
+            ("C02", World::Builder(mut s)) if rng.chance(1, 3) => {
+                for _ in 0..rng.range(1, 3) {
+                    let tag = 3 + rng.below(3) as u8;
+                    let id = if rng.chance(1, 2) && !s.annots.is_empty() { rng.pick(&s.annots).1 } else { rng.range(1, 40) as u32 };
+                    let absent = loop {
+                        let c = rng.range(2, 9_999_999) as u32;
+                        if !f.has(c) {
+                            break c;
+                        }
+                    };
+                    let at = rng.below(s.annots.len() as u64 + 1) as usize;
+                    s.annots.insert(at, (tag, id, absent, gen::gen_name(rng, false)));
+                }
+                tags.push("failing_annotate");
+                World::Builder(s)
+            }
+            (_, w) => w,
+        };
         let bl = w.build();
         let obs = match which {
             "C02" => {
